@@ -9,6 +9,8 @@ import (
 	"strings"
 
 	"golang.org/x/tools/go/ssa"
+
+	"hv/internal/core"
 )
 
 const PkgGohcl = PkgYaotl + "/gohcl"
@@ -616,3 +618,141 @@ func goKindOf(t types.Type, kinds map[string]int64) int64 {
 }
 
 func reflectTag(tag, key string) string { return reflect.StructTag(tag).Get(key) }
+
+// R17Severity — every problem found while loading a profile is an error.
+func R17Severity(c *Ctx) {
+	const rule = "R17-diag-severity"
+	c.R.Rule(rule, "every hcl.Diagnostic literal built in the functions of hclsimple, gohcl, hclsyntax and the yaotl root package that are reachable from hclsimple.DecodeFile has Severity = DiagError: hclsimple stops only on errors, so a problem reported as a warning (a redefined attribute, an extraneous label …) is applied without the load failing", 40)
+	root := c.P.Func(PkgYaotl+"/hclsimple", "DecodeFile")
+	if root == nil {
+		c.R.Anchor(rule, "hclsimple.DecodeFile")
+		return
+	}
+	inPkgs := func(p string) bool {
+		return p == PkgYaotl+"/hclsimple" || p == PkgYaotl+"/gohcl" || p == PkgYaotl+"/hclsyntax" || p == PkgYaotl
+	}
+	reach := core.Reachable(c.P.CHA(), []*ssa.Function{root}, func(fn *ssa.Function) bool { return inPkgs(core.FuncPkgPath(fn)) })
+	var fns []*ssa.Function
+	for fn := range reach {
+		if fn.Blocks != nil {
+			fns = append(fns, fn)
+		}
+	}
+	sort.Slice(fns, func(i, j int) bool { return fns[i].Pos() < fns[j].Pos() })
+	errVal, ok := c.pkgConst(PkgYaotl, "DiagError")
+	if !ok {
+		c.R.Anchor(rule, "yaotl.DiagError")
+		return
+	}
+	for _, fn := range fns {
+		for _, b := range fn.Blocks {
+			for _, in := range b.Instrs {
+				al, ok := in.(*ssa.Alloc)
+				if !ok || al.Type().String() != "*"+PkgYaotl+".Diagnostic" {
+					continue
+				}
+				sev := int64(0) // zero value = DiagInvalid
+				set := false
+				for _, r := range *al.Referrers() {
+					fa, ok := r.(*ssa.FieldAddr)
+					if !ok {
+						continue
+					}
+					if _, f, _, ok := FieldOf(fa); !ok || f != "Severity" {
+						continue
+					}
+					for _, r2 := range *fa.Referrers() {
+						if st, ok := r2.(*ssa.Store); ok && st.Addr == ssa.Value(fa) {
+							if k, ok := ConstInt(st.Val); ok {
+								sev, set = k, true
+							} else {
+								set = true
+								sev = -1
+							}
+						}
+					}
+				}
+				construct := "Diagnostic{Severity: DiagError}"
+				switch {
+				case set && sev == errVal:
+					c.R.Ok(rule, FuncShort(fn), construct, c.pos(al.Pos()), "reported as an error", false)
+				case set && sev == -1:
+					c.R.Ok(rule, FuncShort(fn), "Diagnostic{Severity: <copied>}", c.pos(al.Pos()), "severity copied from another diagnostic", false)
+				default:
+					c.R.Bad(rule, FuncShort(fn), construct, c.pos(al.Pos()), "a problem found while loading the profile is reported with a severity other than DiagError: the load succeeds and the offending part is applied (or dropped) silently")
+				}
+			}
+		}
+	}
+}
+
+// R17LabelArity — a block reaches the decoder only with the number of labels its schema names.
+func R17LabelArity(c *Ctx) {
+	const rule = "R17-label-arity"
+	c.R.Rule(rule, "in hclsyntax (*Body).PartialContent a block is handed on (append of block.AsHCLBlock()) only where both len(block.Labels) > len(schema labels) and len(block.Labels) < len(schema labels) are known false: gohcl indexes its label fields by the block's labels without a check of its own, so a block with a label its type does not take would crash the load instead of being rejected", 1)
+	fn := c.P.Func(PkgHclsyntax, "Body.PartialContent")
+	if fn == nil {
+		c.R.Anchor(rule, "hclsyntax.(*Body).PartialContent")
+		return
+	}
+	isLen := func(v ssa.Value, field string) bool {
+		call, ok := v.(*ssa.Call)
+		if !ok || CalleeName(call) != "builtin.len" {
+			return false
+		}
+		return DerivesFromNarrow(call.Call.Args[0], func(x ssa.Value) bool {
+			_, f, _, ok := FieldOf(x)
+			return ok && f == field
+		})
+	}
+	n := 0
+	for _, b := range fn.Blocks {
+		for _, in := range b.Instrs {
+			call, ok := in.(*ssa.Call)
+			if !ok || !strings.HasSuffix(CalleeName(call), "hclsyntax.Block).AsHCLBlock") {
+				continue
+			}
+			n++
+			gtFalse, ltFalse := false, false
+			for _, f := range FactsAtDeep(b) {
+				bo, ok := f.Cond.(*ssa.BinOp)
+				if !ok {
+					continue
+				}
+				l1, l2 := isLen(bo.X, "Labels"), isLen(bo.Y, "LabelNames")
+				r1, r2 := isLen(bo.X, "LabelNames"), isLen(bo.Y, "Labels")
+				switch {
+				case l1 && l2:
+					if (bo.Op == token.GTR && !f.Truth) || (bo.Op == token.LEQ && f.Truth) || (bo.Op == token.EQL && f.Truth) {
+						gtFalse = true
+					}
+					if (bo.Op == token.LSS && !f.Truth) || (bo.Op == token.GEQ && f.Truth) || (bo.Op == token.EQL && f.Truth) {
+						ltFalse = true
+					}
+					if bo.Op == token.NEQ && !f.Truth {
+						gtFalse, ltFalse = true, true
+					}
+				case r1 && r2:
+					if (bo.Op == token.LSS && !f.Truth) || (bo.Op == token.GEQ && f.Truth) || (bo.Op == token.EQL && f.Truth) {
+						gtFalse = true
+					}
+					if (bo.Op == token.GTR && !f.Truth) || (bo.Op == token.LEQ && f.Truth) || (bo.Op == token.EQL && f.Truth) {
+						ltFalse = true
+					}
+					if bo.Op == token.NEQ && !f.Truth {
+						gtFalse, ltFalse = true, true
+					}
+				}
+			}
+			construct := "block handed on only with exactly the schema's label count"
+			if gtFalse && ltFalse {
+				c.R.Ok(rule, FuncShort(fn), construct, c.pos(call.Pos()), "both the too-many and the too-few test are known false here", true)
+			} else {
+				c.R.Bad(rule, FuncShort(fn), construct, c.pos(call.Pos()), "a block can be handed to the decoder without its label count having been compared with the schema (too many: "+yn(gtFalse)+" excluded, too few: "+yn(ltFalse)+" excluded): gohcl then indexes label fields that do not exist and the load panics")
+			}
+		}
+	}
+	if n == 0 {
+		c.R.Anchor(rule, "the AsHCLBlock append in PartialContent")
+	}
+}
